@@ -15,6 +15,10 @@
 //	subscribe_exclusive         Subscribe likewise
 //	notify_callers_relay_inside every call of Notify in package websocket passes a function literal that relays
 //	                            (Broadcast / BroadcastTo / Send) itself and starts no goroutine
+//	leave_cleanup_unconditional leaveSession removes the leaver's entities in a loop over participant.EntityIDs() that is a
+//	                            top-level statement of the function (not guarded by anything but "not joined"), precedes
+//	                            RemoveParticipant, skips an entity only when it is missing or persistent, and calls
+//	                            RemoveEntity for every other one (coq/ConcLeave.v: the full departure)
 //	unsub_response_after_unsub  HandleEntityComponentUnsubscribe sends the unsubscribe response in a top-level statement
 //	                            that follows the top-level statement calling Unsubscribe
 package main
@@ -360,9 +364,97 @@ func main() {
 	} else {
 		notes = append(notes, "HandleEntityComponentUnsubscribe not found")
 	}
+	// leaveSession: the clean-up of the leaver's entities
+	if fd := method(ws, "RealtimeHandler", "leaveSession"); fd != nil {
+		iloop, irm := -1, -1
+		loopOK := false
+		for i, st := range fd.Body.List {
+			if rs, ok := st.(*ast.RangeStmt); ok && iloop < 0 {
+				if ce, ok := rs.X.(*ast.CallExpr); ok {
+					if se, ok := ce.Fun.(*ast.SelectorExpr); ok && se.Sel.Name == "EntityIDs" {
+						iloop = i
+						// body: the only way to skip an entity is the guard `!ok || entity.Persist`, and RemoveEntity is called
+						// at the top level of the loop body
+						skips, removes, other := 0, false, false
+						for _, bs := range rs.Body.List {
+							switch v := bs.(type) {
+							case *ast.IfStmt:
+								isSkip := len(v.Body.List) == 1 && v.Else == nil
+								if isSkip {
+									if br, ok := v.Body.List[0].(*ast.BranchStmt); !ok || br.Tok != token.CONTINUE {
+										isSkip = false
+									}
+								}
+								if isSkip {
+									be, ok := v.Cond.(*ast.BinaryExpr)
+									good := ok && be.Op == token.LOR
+									if good {
+										ue, ok1 := be.X.(*ast.UnaryExpr)
+										se2, ok2 := be.Y.(*ast.SelectorExpr)
+										good = ok1 && ue.Op == token.NOT && ok2 && se2.Sel.Name == "Persist"
+									}
+									if good {
+										skips++
+									} else {
+										other = true
+									}
+								} else if syncContains(v, func(x ast.Node) bool {
+									b2, ok := x.(*ast.BranchStmt)
+									return ok && (b2.Tok == token.CONTINUE || b2.Tok == token.BREAK)
+								}) {
+									other = true
+								}
+							case *ast.ExprStmt:
+								if ce2, ok := v.X.(*ast.CallExpr); ok {
+									if se2, ok := ce2.Fun.(*ast.SelectorExpr); ok && se2.Sel.Name == "RemoveEntity" {
+										removes = true
+									}
+								}
+							case *ast.BranchStmt, *ast.ReturnStmt:
+								other = true
+							}
+						}
+						loopOK = skips == 1 && removes && !other
+					}
+				}
+			}
+			if irm < 0 {
+				if _, isIf := st.(*ast.IfStmt); !isIf && syncContains(st, func(x ast.Node) bool {
+					ce, ok := x.(*ast.CallExpr)
+					if !ok {
+						return false
+					}
+					se, ok := ce.Fun.(*ast.SelectorExpr)
+					return ok && se.Sel.Name == "RemoveParticipant"
+				}) {
+					irm = i
+				}
+			}
+		}
+		// nothing before the loop may return early depending on anything but "not joined"
+		early := false
+		for i, st := range fd.Body.List {
+			if i >= iloop {
+				break
+			}
+			if is, ok := st.(*ast.IfStmt); ok {
+				ret := syncContains(is.Body, func(x ast.Node) bool { _, ok := x.(*ast.ReturnStmt); return ok })
+				nilCheck := syncContains(is.Cond, func(x ast.Node) bool { id, ok := x.(*ast.Ident); return ok && id.Name == "nil" })
+				if ret && !nilCheck {
+					early = true
+				}
+			}
+		}
+		facts["leave_cleanup_unconditional"] = iloop >= 0 && irm > iloop && loopOK && !early
+		if !facts["leave_cleanup_unconditional"] {
+			notes = append(notes, fmt.Sprintf("leaveSession: loop over EntityIDs at top-level statement %d, RemoveParticipant at %d, loop body as expected: %v, early return: %v", iloop, irm, loopOK, early))
+		}
+	} else {
+		notes = append(notes, "leaveSession not found")
+	}
 	var sb strings.Builder
 	sb.WriteString("(* GenStore.v — GENERATED by tools/storefacts from the current Go sources. Do not edit. *)\n")
-	for _, k := range []string{"addtype_atomic", "notify_relays_under_lock", "unsubscribe_exclusive", "subscribe_exclusive", "notify_callers_relay_inside", "unsub_response_after_unsub"} {
+	for _, k := range []string{"addtype_atomic", "notify_relays_under_lock", "unsubscribe_exclusive", "subscribe_exclusive", "notify_callers_relay_inside", "unsub_response_after_unsub", "leave_cleanup_unconditional"} {
 		fmt.Fprintf(&sb, "Definition %s : bool := %s.\n", k, b(facts[k]))
 	}
 	for _, n := range notes {
